@@ -31,6 +31,7 @@ theorem counts_step_eval (s : State α) (op : Op α) (h : IsEval op) (ncell c : 
   | otherEval => rfl
   | newForecast _ _ => exact absurd h (by simp [IsEval])
   | scale _ _ => exact absurd h (by simp [IsEval])
+  | scaleBy _ _ => exact absurd h (by simp [IsEval])
   | setEdges _ => exact absurd h (by simp [IsEval])
   | editMag _ _ _ => exact absurd h (by simp [IsEval])
 
@@ -45,6 +46,7 @@ theorem eval_preserves_observables (s : State α) (op : Op α) (h : IsEval op) (
   | otherEval => rfl
   | newForecast _ _ => exact absurd h (by simp [IsEval])
   | scale _ _ => exact absurd h (by simp [IsEval])
+  | scaleBy _ _ => exact absurd h (by simp [IsEval])
   | setEdges _ => exact absurd h (by simp [IsEval])
   | editMag _ _ _ => exact absurd h (by simp [IsEval])
 
@@ -68,6 +70,21 @@ theorem scale_absolute (s : State α) (k : Nat) (c₁ c₂ : α) :
 theorem data_after_scale (s : State α) (k : Nat) (c : α) (f : Fore α) (hf : s.fores[k]? = some f) :
     ((step s (.scale k c)).fores[k]?).map Fore.data =
       some (f.stored.map (fun row => row.map (fun x => mul x c))) := by
+  unfold step
+  simp only [List.getElem?_modify, hf, ↓reduceIte, Option.map_some]
+  rfl
+
+/-- **array-valued factors are absolute too**: whatever was set before — a scalar, another array — after `scale(w)` the
+    forecast IS `stored ⊙ w` (numpy broadcasting); nothing of the earlier factor survives -/
+theorem scaleBy_absolute (s : State α) (k : Nat) (w₁ w₂ : Factor α) (c : α) :
+    step (step s (.scaleBy k w₁)) (.scaleBy k w₂) = step s (.scaleBy k w₂) ∧
+    step (step s (.scale k c)) (.scaleBy k w₂) = step s (.scaleBy k w₂) ∧
+    step (step s (.scaleBy k w₁)) (.scale k c) = step s (.scale k c) := by
+  refine ⟨?_, ?_, ?_⟩ <;> (unfold step; simp only [List.modify_modify_eq]; rfl)
+
+/-- the rates a test sees after `scale(w)`: the STORED rates times w, elementwise with numpy's broadcasting -/
+theorem data_after_scaleBy (s : State α) (k : Nat) (w : Factor α) (f : Fore α) (hf : s.fores[k]? = some f) :
+    ((step s (.scaleBy k w)).fores[k]?).map Fore.data = some (w.apply f.stored) := by
   unfold step
   simp only [List.getElem?_modify, hf, ↓reduceIte, Option.map_some]
   rfl
